@@ -303,6 +303,9 @@ def check_C13(res, scratch, tier, seed):
     # the corpus: rules with three and more translated children, nil and terminal nodes shared between abstract nodes, longer inputs
     corpus_part(res, scratch, tier, seed, "C13", matrix, ("curated", "random_trans", "random_amb"), trees=False, builds=builds, mems=(0, 0, 1, 0, 2), mine=mine,
                 want_trees=False)
+    # call histories: two objects parsed alternately, one object redefined between parses (scripted behaviours of Api.tla, all choices)
+    abuilds = [build(scratch, "plain", ("yv_replay", "yv_api"))]
+    replay_api_behaviours(res, abuilds, api_pools(res, scratch), scripted_behaviours(res, scratch), ("C13",))
     res.cov["exhaustive"] = True
 
 
@@ -338,6 +341,48 @@ CHECK_DEADLOCK FALSE
 """ % (",".join(map(str, slots)), maxhist, " ".join(invariants))
 
 
+def scripted_behaviours(res, scratch):
+    """Behaviours of Api.tla under the two scripts, enumerated exhaustively by TLC (breadth-first)."""
+    out = []
+    for sp in ("SpecTwo", "SpecOne"):
+        cfg = api_cfg([1, 2], 12, [1], [3], [0], ["TypeOK"]).replace("SPECIFICATION Spec", "SPECIFICATION " + sp)
+        ts = run_tlc(scratch, "Api", cfg, "api_" + sp, timeout=1500)
+        if ts["status"] != "ok":
+            raise Infra("TLC Api %s: %s\n%s" % (sp, ts["status"], ts["tail"][-3000:]))
+        res.add_tlc(ts)
+        out += [v["hist"] for v in tlc_vectors(ts["out"]) if "hist" in v]
+    return out
+
+
+def replay_api_behaviours(res, builds, pools, behs, owners, codemaps=("gap",)):
+    for cm in codemaps:
+        pool_lines, inputs = api_pool_lines(pools, codemap=cm)
+        blocks = [api_behaviour_block("b%d" % i, h, inputs) for i, h in enumerate(behs)]
+        blocks = [[b[0]] + pool_lines + b[1:] for b in blocks]
+        for bdir in builds:
+            recs, st = run_harness(os.path.join(bdir, "yv_api"), blocks)
+            for r in recs:
+                if r.get("k") == "summary":
+                    res.cov["evaluations"] += r.get("ops", 0)
+                elif r.get("k") == "mismatch":
+                    if api_owner(r["what"]) in owners:
+                        res.violation("%s|%s" % (api_owner(r["what"]), r["what"]), dict(r, codemap=cm, build=os.path.basename(bdir), behaviour=_beh_of(blocks, r.get("g"))))
+                    else:
+                        res.notes["other_property_mismatches"] = res.notes.get("other_property_mismatches", 0) + 1
+                elif r.get("e") == "Abort":
+                    blk = r.get("block")
+                    res.violation(abort_key(r), dict(r, codemap=cm, block=[l for l in (blk or []) if l[:2] in ("B ", "c ", "f ", "s ", "d ", "p ", "x")], build=os.path.basename(bdir)))
+            res.cov["traces_validated_against_impl"] += len(blocks)
+
+
+def api_pools(res, scratch):
+    t = run_tlc(scratch, "Api", api_cfg([1], 1, [1], [3], [0], ["EmitPools"]), "api_pools", timeout=600)
+    for v in tlc_vectors(t["out"]):
+        if "defs" in v:
+            return v
+    raise Infra("no pools printed by TLC\n" + t["tail"][-2000:])
+
+
 def run_api(res, scratch, tier, seed, prop, owners):
     builds = [build(scratch, "plain", ("yv_replay", "yv_api")), build(scratch, "asan", ("yv_replay", "yv_api"))]
     res.cov["trusted_base"] = TB
@@ -365,6 +410,11 @@ def run_api(res, scratch, tier, seed, prop, owners):
             behs.append(v["hist"])
     if pools is None or not behs:
         raise Infra("no behaviours printed by TLC\n" + t["tail"][-2000:])
+    # (V) scripted behaviours, enumerated exhaustively: two objects parsed alternately; one object parsed, redefined, parsed again
+    scripted = scripted_behaviours(res, scratch)
+    res.notes["scripted_behaviours"] = len(scripted)
+    nrandom = len(behs)
+    behs += scripted
     distinct = {json.dumps([(e["op"], e.get("d"), e.get("w"), e.get("which")) for e in h]) for h in behs}
     res.cov["distinct_nontrivial"] += len(distinct)
     res.cov["rule"] = ("TLC simulates the API-history machine spec/Api.tla (%d slots, definition pool of 10 good/defective definitions (one with 170 terminals, one with a rule of 130 alternatives) by callbacks and by "
@@ -374,7 +424,9 @@ def run_api(res, scratch, tier, seed, prop, owners):
                        "trees re-serialised after all later calls; non-trivial = distinct call sequences" % (len(slots), depth))
     for cm in ("gap", "gapzero"):
         pool_lines, inputs = api_pool_lines(pools, codemap=cm)
-        blocks = [api_behaviour_block("b%d" % i, h, inputs) for i, h in enumerate(behs)]
+        # the scripted behaviours run under one code assignment in the quick tier
+        use = behs if (cm == "gap" or tier != "quick") else behs[:nrandom]
+        blocks = [api_behaviour_block("b%d" % i, h, inputs) for i, h in enumerate(use)]
         blocks = [[b[0]] + pool_lines + b[1:] for b in blocks]
         if len(res.cov["samples"]) < 2:
             res.cov["samples"].append({"codemap": cm, "behaviour": blocks[len(blocks) // 2][len(pool_lines) + 1:]})
